@@ -3,11 +3,21 @@ import LentilVerif.Model.Heap
 namespace Lentil.Heap
 
 theorem mem_writeCells (tbl : List Gen.EffRow) (s : State) (op : Op) (c : Cell) :
-    c ∈ writeCells tbl s op ↔ ∃ b ∈ op.bind, b.1 ∈ writeSlots tbl op ∧ (c = b.2 ∨ c ∈ s.refs b.2) := by
-  simp only [writeCells, List.mem_flatMap, List.mem_filter, List.contains_eq_mem, decide_eq_true_eq, List.mem_cons]
+    c ∈ writeCells tbl s op ↔ ∃ b ∈ op.bind, b.1 ∈ writeSlots tbl op ∧
+      (c = b.2 ∨ ∃ a, (a, c) ∈ s.refs b.2 ∧ ((writeAttrs tbl op b.1).isEmpty = true ∨ a ∈ writeAttrs tbl op b.1)) := by
+  simp only [writeCells, List.mem_flatMap, List.mem_filter, List.contains_eq_mem, decide_eq_true_eq, List.mem_cons, List.mem_map,
+    Bool.or_eq_true]
   constructor
-  · rintro ⟨b, ⟨hb, hs⟩, hc⟩; exact ⟨b, hb, hs, hc⟩
-  · rintro ⟨b, hb, hs, hc⟩; exact ⟨b, ⟨hb, hs⟩, hc⟩
+  · rintro ⟨b, ⟨hb, hs⟩, hc⟩
+    refine ⟨b, hb, hs, ?_⟩
+    rcases hc with hc | ⟨r, ⟨hr, hok⟩, rfl⟩
+    · exact Or.inl hc
+    · exact Or.inr ⟨r.1, hr, hok⟩
+  · rintro ⟨b, hb, hs, hc⟩
+    refine ⟨b, ⟨hb, hs⟩, ?_⟩
+    rcases hc with hc | ⟨a, hr, hok⟩
+    · exact Or.inl hc
+    · exact Or.inr ⟨(a, c), ⟨hr, hok⟩, rfl⟩
 
 theorem frame_step (tbl : List Gen.EffRow) (s : State) (op : Op) (c : Cell) (h1 : op.res ≠ some c)
     (h2 : c ∉ writeCells tbl s op) : (step tbl s op).val c = s.val c := by
